@@ -42,7 +42,8 @@ META = {
         "Trusted: Coq kernel; hand-written model (object identities = nat ids, attribute/property dicts, types and op names = "
         "interned opaque payloads); correspondence harness. Modelled: Operation/Block/Region.is_structurally_equivalent incl. "
         "context threading. Not covered: the isinstance(other, ...) early exits for mixed node kinds; OperationInfo.__eq__/__hash__ "
-        "(CSE) is modelled (op_info_eq) and compared with the real class, HashableModule/schedule_space call the modelled method directly; "
+        "(CSE) is modelled (op_info_eq) and compared with the real class incl. payloads whose CPython hashes collide; the real "
+        "ModulePass.schedule_space and HashableModule.__eq__/__hash__ are run with ad-hoc passes and compared with se_op on the dumped pair; "
         "Operation.clone itself (C02) -- the clone theorem is about a renaming model of clone."),
 }
 COQ_TARGETS = ["C03/Enc.vo", "C03/ProofsMain.vo", "Props/C03.vo"]
@@ -52,17 +53,26 @@ TRUSTED: list[str] = []
 MODEL_CFG = "cfg_repo"          # configuration of the model used for the correspondence (Model.v: cfg_repo)
 
 NT, NA, NP, NOUTV, NOUTB = 4, 5, 4, 4, 2
+COLLIDE = [-1, -2, 0, 2 ** 61 - 1, 1, 2 ** 61]
 
 
 # ------------------------------------------------------------------------------------------------
 # building real IR from a spec
 
 def _pools():
-    from xdsl.dialects.builtin import StringAttr, f32, i1, i32, i64
+    from xdsl.dialects.builtin import IntAttr, IntegerAttr, StringAttr, f32, i1, i32, i64
     types = [i32, i64, f32, i1]
     attrs = [{}, {"x": StringAttr("a")}, {"x": StringAttr("b")}, {"y": StringAttr("a")},
              {"x": StringAttr("a"), "y": StringAttr("a")}]
     props = [{}, {"prop1": StringAttr("a")}, {"prop1": StringAttr("b")}, {"prop2": StringAttr("a")}]
+    # indices >= NA / NP: payloads whose CPython hashes collide pairwise (hash(-1) == hash(-2),
+    # hash(0) == hash(2**61-1), hash(1) == hash(2**61)) although the attributes differ
+    for v in COLLIDE:
+        attrs.append({"x": IntAttr(v)})
+        props.append({"prop1": IntAttr(v)})
+    for v in COLLIDE:
+        attrs.append({"x": IntegerAttr(v, i64)})
+        props.append({"prop1": IntegerAttr(v, i64)})
     return types, attrs, props
 
 
@@ -398,6 +408,177 @@ def impl_info(case):
 def coq_expr_info(case):
     A, B, keep, num, da, db = prepared(case)
     return f"(c03_opinfo {MODEL_CFG} {coq_of_op(da)} {coq_of_op(db)})%nat"
+
+
+def holds_info(case, res):
+    """CSE may treat two ops as the same only if name, attribute dict, property dict, operands (identical values)
+    and result types agree (necessary condition, read off the dump of the real ops; regions are covered by the
+    correspondence with the model)"""
+    A, B, keep, num, da, db = prepared(case)
+    if res == 1:
+        for f, what in (("n", "op names"), ("a", "attribute dictionaries"), ("p", "property dictionaries"),
+                        ("o", "operands")):
+            if da[f] != db[f]:
+                return False, f"OperationInfo(a) == OperationInfo(b) although the {what} differ"
+        if [t for _, t in da["r"]] != [t for _, t in db["r"]]:
+            return False, "OperationInfo(a) == OperationInfo(b) although the result types differ"
+    return True, ""
+
+
+def collision_cases():
+    """pairs of ops that differ only in one attribute / property payload, all payload pairs of the collision pool
+    (IntAttr and IntegerAttr), with and without a region"""
+    out = []
+    n = len(COLLIDE)
+    for base, field in ((NA, "a"), (NP, "p")):
+        for flavour in (0, n):
+            for i in range(n):
+                for j in range(n):
+                    for reg in (0, 1):
+                        g = [[{"n": 1, "args": [], "ops": [_op(r=[(2, 0)])]}]] if reg else []
+                        a, b = _op(r=[(1, 0)], g=g), _op(r=[(1, 0)], g=copy.deepcopy(g))
+                        a[field], b[field] = base + flavour + i, base + flavour + j
+                        out.append({"kind": "op", "mode": "spec", "a": a, "b": b, "attach": [0, 0], "mut": "collide"})
+    return out
+
+
+# ------------------------------------------------------------------------------------------------
+# consumers: ModulePass.schedule_space and HashableModule.__eq__/__hash__ on (module, clone mutated by a pass)
+
+PASS_KINDS = ["noop", "noop-touch", "body-attr", "body-addop", "body-erase", "module-attr", "module-symname",
+              "module-symname-same"]
+
+
+def _pass_mutation(kind):
+    from xdsl.dialects import test
+    from xdsl.dialects.builtin import StringAttr
+
+    def mut(op):
+        body = list(op.body.block.ops)
+        if kind == "noop":
+            return
+        if kind == "noop-touch":                      # rewrites what is already there
+            op.attributes = dict(op.attributes)
+            op.sym_name = op.sym_name
+        elif kind == "body-attr":
+            if body:
+                body[0].attributes["c03_pass"] = StringAttr("touched")
+        elif kind == "body-addop":
+            op.body.block.add_op(test.TestOp())
+        elif kind == "body-erase":
+            dead = [o for o in body if not any(r.uses for r in o.results)]
+            if dead:
+                op.body.block.erase_op(dead[-1])
+        elif kind == "module-attr":                   # only the builtin.module op itself changes
+            op.attributes["c03_pass"] = StringAttr("touched")
+        elif kind == "module-symname":
+            op.sym_name = StringAttr("renamed_by_pass")
+        elif kind == "module-symname-same":
+            op.sym_name = StringAttr("m")
+    return mut
+
+
+def build_module(case):
+    from xdsl.dialects.builtin import ModuleOp, StringAttr
+    from xdsl.ir import Region
+    _, attrs, _ = _pools()
+    shared = _shared()
+    env = Env(shared)
+    blk = _build_root("block", case["body"], env, None)
+    _apply_patches(env, None)
+    m = ModuleOp(Region([blk]), attributes=dict(attrs[case["ma"]]),
+                 sym_name=StringAttr("m") if case["sym"] else None)
+    return m, [shared]
+
+
+_CCACHE: dict = {}
+
+
+def prepared_cons(case):
+    key = json.dumps(case, sort_keys=True)
+    if key not in _CCACHE:
+        _CCACHE.clear()
+        A, keep = build_module(case)
+        B = A.clone()
+        _pass_mutation(case["pass"])(B)               # what apply_to_clone does to its clone
+        num = Num()
+        _CCACHE[key] = (A, B, keep, num, dump_op(A, num), dump_op(B, num))
+    return _CCACHE[key]
+
+
+def impl_cons(case):
+    """[schedule_space says 'pass does nothing', HashableModule(a) == HashableModule(b), (b) == (a), hashes agree]"""
+    from dataclasses import dataclass
+
+    from xdsl.context import Context
+    from xdsl.passes import ModulePass
+    from xdsl.utils.hashable_module import HashableModule
+    A, B, keep, num, da, db = prepared_cons(case)
+    mut = _pass_mutation(case["pass"])
+
+    @dataclass(frozen=True)
+    class C03Pass(ModulePass):
+        name = "c03-adhoc"
+
+        def apply(self, ctx, op):
+            mut(op)
+
+    space = C03Pass.schedule_space(Context(), A)
+    ha, hb = HashableModule(A), HashableModule(B)
+    return [1 if len(space) == 0 else 0, 1 if ha == hb else 0, 1 if hb == ha else 0,
+            1 if hash(ha) == hash(hb) else 0]
+
+
+def coq_expr_cons(case):
+    A, B, keep, num, da, db = prepared_cons(case)
+    return f"(c03_consumers {MODEL_CFG} {coq_of_op(da)} {coq_of_op(db)})%nat"
+
+
+def _facts_cons(case):
+    A, B, keep, num, da, db = prepared_cons(case)
+    return da, db, canon("op", da) == canon("op", db), canon("op", da, False) == canon("op", db, False)
+
+
+def holds_cons(case, res):
+    da, db, iso, _ = _facts_cons(case)
+    unchanged, eq_ab, eq_ba, _h = res
+    if bool(unchanged) != iso:
+        return False, ("schedule_space reports the pass as not applicable although it changes the module (whole-module "
+                       "canonical forms differ)" if unchanged else
+                       "schedule_space offers a pass whose result is isomorphic to the input module")
+    if bool(eq_ab) != iso or bool(eq_ba) != iso:
+        return False, f"HashableModule equality is {eq_ab}/{eq_ba} but module isomorphism is {iso}"
+    return True, ""
+
+
+def holds_cons_hash(case, res):
+    ok, why = holds_cons(case, res)
+    if ok and res[1] and not res[3]:
+        return False, "HashableModule: equal modules with different hashes"
+    return ok, why
+
+
+def known_cons(case, res):
+    da, db, iso, iso_nort = _facts_cons(case)
+    ids = []
+    for (x, y, r) in ((da, db, res[0]), (da, db, res[1]), (db, da, res[2])):
+        if bool(r) == iso:
+            continue
+        if not defs_precede_uses("op", x):
+            ids.append("C03-kf-2")
+        else:
+            return None
+    return ids[0] if ids else None
+
+
+def gen_cons_case(rng):
+    fwd = rng.random() < 0.1
+    g = Gen(rng, fwd, rng.choice([2, 4, 7]), 2)
+    body = g.block(0)
+    body["args"] = []
+    g.wire("block", body)
+    return {"body": body, "ma": rng.choices(range(NA), [5, 2, 1, 1, 1])[0], "sym": int(rng.random() < 0.5),
+            "pass": rng.choice(PASS_KINDS), "fwd": int(fwd)}
 
 
 # ------------------------------------------------------------------------------------------------
@@ -1089,10 +1270,19 @@ def run(ctx: Ctx):
     ctx.coverage["generated_with_forward_refs"] = sum(c.get("fwd", 0) for c in cases)
     ctx.coverage["generated_attached_roots"] = sum(1 for c in cases if any(c.get("attach", [0, 0])))
 
-    icases = [c for c in cases if c["kind"] == "op" and c["mode"] != "sub"][:3000 if thorough else 300]
-    differential(ctx, DiffSpec("cse-operationinfo-eq", REQ, icases, impl_info, coq_expr_info, None, None,
+    icases = collision_cases() + [c for c in cases if c["kind"] == "op" and c["mode"] != "sub"][:3000 if thorough else 200]
+    differential(ctx, DiffSpec("cse-operationinfo-eq", REQ, icases, impl_info, coq_expr_info, holds_info, None,
                                lambda c, r: (r, json.dumps(c, sort_keys=True)) if r != 0 else None,
                                shard=500 if thorough else 150))
+
+    pcases = [gen_cons_case(rng) for _ in range(2000 if thorough else 240)]
+    differential(ctx, DiffSpec("schedule_space+HashableModule", REQ, pcases, impl_cons, coq_expr_cons, holds_cons_hash,
+                               known_cons, lambda c, r: (c["pass"], tuple(r), json.dumps(c["body"], sort_keys=True)),
+                               shard=500 if thorough else 240))
+    pd: dict = {}
+    for c in pcases:
+        pd[c["pass"]] = pd.get(c["pass"], 0) + 1
+    ctx.coverage["pass_kinds"] = pd
 
     mods = corpus_modules(rng, 120 if thorough else 16)
     ccases = []
